@@ -19,7 +19,8 @@ def sizes(ctx):
         return [(2, 2), (3, 5), (4, 6), (7, 12), (8, 8), (10, 13), (16, 16), (17, 22), (20, 9), (24, 36)]
     out = [(h, w) for h in (2, 3, 4, 5, 6, 7, 8, 9, 11, 12, 13, 16, 17, 18, 20, 24, 31, 36)
            for w in (2, 3, 4, 6, 7, 8, 10, 12, 13, 16, 22, 40)]
-    return [s for i, s in enumerate(out) if (i % 3 == 0) or s[0] == s[1] or min(s) <= 4]
+    # every (H mod 4, W mod 4) class several times, tiny and larger sizes, both aspect ratios: 56 sizes
+    return [s for i, s in enumerate(out) if (i % 5 == 0) or s[0] == s[1] or (min(s) <= 3 and i % 2 == 0)]
 
 
 def configs(ctx):
@@ -31,8 +32,10 @@ def configs(ctx):
                 continue
             long_f = q in ('qshift_c', 'qshift_d') or b == 'near_sym_b'
             J = 3 if not long_f else 2
-            if not ctx.quick and H * W <= 200 and not long_f:
+            if not ctx.quick and H * W <= 200 and not long_f and (i % 3 == 0):
                 J = 4
+            if not ctx.quick and (hash((b, q, 't')) + i) % 2 and (b, q) != ('near_sym_a', 'qshift_a'):
+                continue
             items.append((b, q, H, W, J, 1, 2, 2, -1, 0, 0))
     items.append(('near_sym_a', 'qshift_a', 6, 10, 2, 2, 3, 2, -1, 0, 0))
     items.append(('legall', 'qshift_06', 12, 9, 1, 1, 1, 2, -1, 0, 0))
